@@ -290,6 +290,31 @@ func VH_retry() {
 	vapi.Assert(l4proxy.VerifPeerState_(u, 0).NumConns == 0, "a connection is still counted on the upstream after Handle returned")
 }
 
+// VH_retry_multi: an upstream with two peers whose second peer refuses for the first
+// attempts: every connection opened in an abandoned attempt has been closed when Handle
+// returns, nothing stays counted.
+func VH_retry_multi() {
+	resetEnv()
+	u := mkUpstream(0, 0, 2)
+	h := l4proxy.VerifNewHandler(l4proxy.UpstreamPool{u}, &l4proxy.FirstSelection{}, 2500*time.Millisecond, 500*time.Millisecond, nil, 0)
+	badAttempts := vapi.Int("failing attempts", 0, 3)
+	// dial 2k is peer 0 of attempt k (connects), dial 2k+1 is peer 1 (refuses during the first badAttempts attempts)
+	dialFail = func(i int) bool { return i%2 == 1 && i/2 < badAttempts }
+	cx, _ := clientConn(nil)
+	err := h.Handle(cx, nil)
+	vapi.Assert(err == nil, "proxying failed although the peers accepted in the end")
+	vapi.Cover("proxied after abandoned attempts")
+	if badAttempts > 0 {
+		vapi.Cover("attempts were abandoned")
+	}
+	for _, up := range ups {
+		vapi.Assert(up.closed >= 1, "an upstream connection opened in an abandoned attempt was never closed")
+	}
+	for i := 0; i < 2; i++ {
+		vapi.Assert(l4proxy.VerifPeerState_(u, i).NumConns == 0, "a connection is still counted on a peer after Handle returned")
+	}
+}
+
 // ---- C03: relaying ----------------------------------------------------------------------------------------------
 
 // halfConn is a client that supports half-close.
@@ -313,7 +338,7 @@ func VH_relay() {
 	mkUp = func(i int) *upConn { return &upConn{id: i, payload: vapi.Bytes("up", vapi.Param("UPL", 3))} }
 	B := vapi.Bytes("B", vapi.Param("BL", 3)) // prefetched during matching, still unread
 	D := vapi.Bytes("D", vapi.Param("DL", 3))
-	sc := &env.SymConn{D: D, MaxReads: vapi.Param("ROUNDS", 3)}
+	sc := &env.SymConn{D: D, MaxReads: vapi.Param("ROUNDS", 3), EOFWithData: vapi.Param("EOFDATA", 0) == 1 && vapi.Bool("eof-with-data")}
 	hc := &halfConn{SymConn: sc}
 	cx := layer4.WrapConnection(hc, nil, zap.NewNop())
 	layer4.VerifSetState(cx, B, 0, 0, false)
@@ -443,7 +468,7 @@ func VH_ppsend_fail() {
 
 func init() {
 	for name, f := range map[string]func(){
-		"VH_ppsend_fail": VH_ppsend_fail, "VH_relay_wrapped": VH_relay_wrapped,
+		"VH_ppsend_fail": VH_ppsend_fail, "VH_relay_wrapped": VH_relay_wrapped, "VH_retry_multi": VH_retry_multi,
 		"VH_maxconn": VH_maxconn, "VH_active": VH_active, "VH_failwindow": VH_failwindow, "VH_retry": VH_retry,
 		"VH_relay": VH_relay, "VH_ppsend": VH_ppsend, "VH_limits": VH_limits,
 	} {
